@@ -96,7 +96,7 @@ func genC20(t *rapid.T) C20Case {
 			c.ReadLimit, c.WriteLimit = rate, other
 			return c
 		}
-		if c.TimeoutMs == 0 && c.WindowMs == 0 && rapid.IntRange(0, 3).Draw(t, "drain") == 0 {
+		if c.TimeoutMs == 0 && c.WindowMs == 0 && rapid.IntRange(0, 2).Draw(t, "drain") == 0 {
 			c.DrainMs = rapid.SampledFrom([]int{60, 150, 300}).Draw(t, "drainms")
 		}
 		if c.TimeoutMs == 0 && c.WindowMs == 0 && c.DrainMs == 0 && rapid.IntRange(0, 3).Draw(t, "counterflow") == 0 {
